@@ -20,6 +20,7 @@ import (
 type zzStim struct {
 	notif   bool
 	nested  bool
+	non     bool // the nested request is non-confirmable
 	handled int
 	call    *zzCall
 	ended   bool
@@ -31,6 +32,9 @@ func zzC11_udp_nested() {
 	st := make([]*zzStim, n)
 	for i := range st {
 		st[i] = &zzStim{notif: symChoose("stimulus-is-notification", 2) == 1, nested: symChoose("handler-blocks-on-nested-request", 2) == 1}
+		if st[i].nested && symChoose("nested-request-is-non-confirmable", 2) == 1 {
+			st[i].non = true
+		}
 	}
 	var cc *Conn
 	run := func(i int) {
@@ -38,7 +42,23 @@ func zzC11_udp_nested() {
 		x.handled++
 		if x.nested {
 			x.call = &zzCall{token: message.Token{0xD0, byte(i)}}
-			zzDo(cc, x.call)
+			if x.non {
+				c := x.call
+				req := pool.NewMessage(context.Background())
+				req.SetCode(codes.GET)
+				req.SetType(message.NonConfirmable)
+				req.SetToken(c.token)
+				_ = req.SetPath("/a")
+				c.resp, c.err = cc.Do(req)
+				if c.err == nil && c.resp != nil {
+					c.tok = c.resp.Token()
+					c.body, _ = c.resp.ReadBody()
+				}
+				c.done = true
+				symCover("nested-non-confirmable")
+			} else {
+				zzDo(cc, x.call)
+			}
 		}
 		x.ended = true
 	}
@@ -85,6 +105,10 @@ func zzC11_udp_nested() {
 	answered := 1 // index into s.written of the next nested request the peer has not answered yet
 	answer := func(k int) {
 		w := s.written[k]
+		if w.typ == message.NonConfirmable {
+			_ = cc.Process(nil, zzDatagram(message.NonConfirmable, 21000+int32(w.token[1]), codes.Content, w.token, []byte{w.token[1] + 0x40}))
+			return
+		}
 		zzAnswer(cc, w, w.token[1]+0x40, symChoose("style", symParam("styles", 1)), 1)
 	}
 	var pendingNested []int // indices in s.written of nested requests not answered yet
@@ -111,7 +135,7 @@ func zzC11_udp_nested() {
 			symWaitUntil(func() bool {
 				c := 0
 				for _, w := range s.written {
-					if w.typ == message.Confirmable && len(w.token) == 2 && w.token[0] == 0xD0 {
+					if len(w.token) == 2 && w.token[0] == 0xD0 && w.code == codes.GET {
 						c++
 					}
 				}
@@ -119,7 +143,7 @@ func zzC11_udp_nested() {
 			})
 			for k := answered; k < len(s.written); k++ {
 				w := s.written[k]
-				if w.typ == message.Confirmable && len(w.token) == 2 && w.token[0] == 0xD0 && int(w.token[1]) == i {
+				if w.code == codes.GET && len(w.token) == 2 && w.token[0] == 0xD0 && int(w.token[1]) == i {
 					pendingNested = append(pendingNested, k)
 				}
 			}
